@@ -85,6 +85,23 @@ class SimSystem(model.System):
         super().msg(section, msg, thresh, topthresh, nonl, wantsnl, once)
 
 
+def _install_reparent_log() -> None:
+    """Record every re-export move with the identity of the moved object (instrumentation of the harness: the method is
+    wrapped in this process only)."""
+    orig = model.Documentable.reparent
+    if getattr(orig, '_verif_wrapped', False):
+        return
+
+    def reparent(self: model.Documentable, new_parent: model.Module, new_name: str) -> None:
+        log = getattr(self.system, 'sim_log', None)
+        old = self.fullName()
+        orig(self, new_parent, new_name)
+        if log is not None:
+            log.append(('reparent', ident(self) if not isinstance(self, model.Module) else self.name, old, self.fullName()))
+    reparent._verif_wrapped = True      # type: ignore[attr-defined]
+    model.Documentable.reparent = reparent      # type: ignore[method-assign]
+
+
 class StepBudgetExceeded(Exception):
     pass
 
@@ -288,3 +305,6 @@ def run_main(argv: List[str], listing: Optional[Dict[str, List[str]]] = None) ->
     res['system'] = LAST_SYSTEM[-1] if LAST_SYSTEM else None
     res['listing_hits'] = lo.hits
     return res
+
+
+_install_reparent_log()
